@@ -55,7 +55,8 @@ func (e *engine) knownRegions(harness, label string) []*KnownFinding {
 	var out []*KnownFinding
 	for i := range e.known {
 		k := &e.known[i]
-		if k.Status == "known" && k.Label == label && (k.Harness == harness || k.Harness == "*") {
+		lm := k.Label == label || (strings.HasSuffix(k.Label, "*") && strings.HasPrefix(label, strings.TrimSuffix(k.Label, "*")))
+		if k.Status == "known" && lm && (k.Harness == harness || k.Harness == "*") {
 			out = append(out, k)
 		}
 	}
